@@ -15,6 +15,13 @@ C20_CONFIGS = [
     _cfg(7, "HalfDown", 1, 15, 1000), _cfg(16, "Down", 9, 0, 0), _cfg(34, "Up", 1, 2, 5), _cfg(100, "Ceiling", 9, 2, 1000),
 ]
 
+# programs mixing exact operations with rounding, division, remainder, roots and reciprocal (tlc -simulate); in the check
+# of property P the steps of P's operations are hard verdicts, all other steps informational
+def MIXED(q=300, t=4000):
+    return dict(model="Gen_Programs", name="Gen_Mixed", quick="Gen_Mixed.cfg",
+                simulate=dict(quick=dict(num=q, depth=48), thorough=dict(num=t, depth=48)))
+
+
 PLANS = {
     "C01": dict(
         check_forms=["add", "sub", "mul"],
@@ -47,21 +54,23 @@ PLANS = {
     ),
     "C06": dict(
         mcgen=[dict(model="MC_Round", quick="MC_Round_quick.cfg", thorough="MC_Round_thorough.cfg")],
+        gen=[MIXED()],
         drive=True,
         bounds=dict(quick=dict(model_checked="|unscaled| <= 1200 x scales -3..8 x targets within 4 of either end x 7 modes", replayed_on_crate="|unscaled| <= 300, same scales/targets/modes, exhaustively", not_reached="the property's |unscaled| < 10^5"),
                     thorough=dict(model_checked="|unscaled| <= 30000", replayed_on_crate="|unscaled| <= 2000 exhaustively", not_reached="30000 < |unscaled| < 10^5")),
     ),
     "C07": dict(
         mcgen=[dict(model="MC_Round", quick="MC_Round_quick.cfg", thorough="MC_Round_thorough.cfg")],
+        gen=[MIXED()],
         drive=True,
     ),
-    "C08": dict(check_forms=["div"], drive=True,
+    "C08": dict(check_forms=["div"], drive=True, gen=[MIXED()],
                 mcgen=[dict(model="MC_Rem", quick="MC_Rem_quick.cfg", thorough="MC_Rem_thorough.cfg")]),
-    "C09": dict(check_forms=["rem"], drive=True,
+    "C09": dict(check_forms=["rem"], drive=True, gen=[MIXED()],
                 mcgen=[dict(model="MC_Rem", quick="MC_Rem_quick.cfg", thorough="MC_Rem_thorough.cfg")]),
-    "C10": dict(drive=True, mcgen=[dict(model="MC_Roots", quick="MC_Roots_quick.cfg", thorough="MC_Roots_thorough.cfg")]),
-    "C11": dict(drive=True, mcgen=[dict(model="MC_Roots", quick="MC_Roots_quick.cfg", thorough="MC_Roots_thorough.cfg")]),
-    "C12": dict(drive=True, shard=1500,
+    "C10": dict(drive=True, gen=[MIXED()], mcgen=[dict(model="MC_Roots", quick="MC_Roots_quick.cfg", thorough="MC_Roots_thorough.cfg")]),
+    "C11": dict(drive=True, gen=[MIXED()], mcgen=[dict(model="MC_Roots", quick="MC_Roots_quick.cfg", thorough="MC_Roots_thorough.cfg")]),
+    "C12": dict(drive=True, shard=1500, gen=[MIXED()],
                 mc=[dict(model="MC_Inverse", quick="MC_Inverse_shipped.cfg", only="thorough", expect_violation="ResultOK")],
                 mcgen=[dict(model="MC_Roots", quick="MC_Roots_quick.cfg", thorough="MC_Roots_thorough.cfg"),
                        dict(model="MC_Inverse", quick="MC_Inverse_quick.cfg", thorough="MC_Inverse_thorough.cfg")]),
@@ -91,7 +100,8 @@ PLANS = {
         check_forms=["add", "sub", "mul"],
         mc=[dict(model="MC_Programs", quick="MC_Programs_quick.cfg", thorough="MC_Programs_thorough.cfg")],
         gen=[dict(model="Gen_Programs", quick="Gen_Programs.cfg",
-                  simulate=dict(quick=dict(num=1500, depth=48), thorough=dict(num=30000, depth=48)))],
+                  simulate=dict(quick=dict(num=1500, depth=48), thorough=dict(num=30000, depth=48))),
+             MIXED(300, 4000)],
         drive=True,
     ),
 }
